@@ -143,6 +143,35 @@ func sizeWS(in WS) int {
 var inputsM = []M{{}, {"x": 1}, {"x": 1, "y": "z"}}
 var inputsWS = []WS{{}, {A: 1}, {A: 1, B: "b"}}
 
+// pool keeps the builder values one execution of a case created (lambdas, sub graphs, branches, Parallel
+// and ChainBranch objects, mapping and option slices), keyed by call (and item); an execution that is
+// handed the pool of an earlier one builds the same construction again FROM THE SAME VALUES, the way a
+// program does that declares its lambdas and branches once and builds the graph in a function.
+type pool struct{ m map[string]any }
+
+func newPool() *pool { return &pool{m: map[string]any{}} }
+
+func pooled[T any](b *feBase, what string, mk func() T) T {
+	if b == nil || b.pool == nil {
+		return mk()
+	}
+	key := fmt.Sprintf("%d/%s", b.at, what)
+	if v, ok := b.pool.m[key]; ok {
+		return v.(T)
+	}
+	v := mk()
+	b.pool.m[key] = v
+	return v
+}
+
+// feBase: what every front-end knows about the execution it is part of
+type feBase struct {
+	pool *pool
+	at   int // index of the call being applied
+}
+
+func (b *feBase) base() *feBase { return b }
+
 func mkLam[T any](k string, f func(string, T) T) *compose.Lambda {
 	return compose.InvokableLambda(func(ctx context.Context, in T) (T, error) { return f(k, in), nil })
 }
@@ -177,7 +206,7 @@ func newStateOpt() compose.NewGraphOption {
 }
 
 func compileOpts(c *Call) []compose.GraphCompileOption {
-	var o []compose.GraphCompileOption
+	o := make([]compose.GraphCompileOption, 0, 4) // spare capacity: a callee that appends to it writes into the caller's array
 	switch c.Trigger {
 	case "any":
 		o = append(o, compose.WithNodeTriggerMode(compose.AnyPredecessor))
@@ -248,6 +277,7 @@ func structure(root any) []string {
 
 // frontEnd applies one call; a successful Compile also yields an invoker.
 type frontEnd interface {
+	base() *feBase
 	apply(c *Call) (error, *invoker)
 	snapshot() []string             // canonical state (snap.go)
 	pendingInputs() map[string]int  // Workflow: deferred inputs per node (nil otherwise)
@@ -266,36 +296,39 @@ func nodeOpts[T any](needState bool, nodeKey string, useNodeKey bool) []compose.
 }
 
 // ---- Graph
-type graphFE struct{ g *compose.Graph[M, M] }
+type graphFE struct {
+	feBase
+	g *compose.Graph[M, M]
+}
 
 func newGraphFE(state bool) *graphFE {
 	if state {
-		return &graphFE{compose.NewGraph[M, M](newStateOpt())}
+		return &graphFE{g: compose.NewGraph[M, M](newStateOpt())}
 	}
-	return &graphFE{compose.NewGraph[M, M]()}
+	return &graphFE{g: compose.NewGraph[M, M]()}
 }
 
 func (f *graphFE) apply(c *Call) (error, *invoker) {
 	ctx := context.Background()
 	switch c.Op {
 	case "addnode":
-		opts := nodeOpts[M](c.NeedState, "k", c.NodeKeyOpt)
+		opts := pooled(&f.feBase, "opts", func() []compose.GraphAddNodeOpt { return nodeOpts[M](c.NeedState, "k", c.NodeKeyOpt) })
 		switch c.Kind {
 		case "lambda":
-			return f.g.AddLambdaNode(c.Key, mkLam(c.Key, fM), opts...), nil
+			return f.g.AddLambdaNode(c.Key, pooled(&f.feBase, "lam", func() *compose.Lambda { return mkLam(c.Key, fM) }), opts...), nil
 		case "pass":
 			return f.g.AddPassthroughNode(c.Key, opts...), nil
 		case "subok":
-			return f.g.AddGraphNode(c.Key, mkSub(true, fM), opts...), nil
+			return f.g.AddGraphNode(c.Key, pooled(&f.feBase, "sub", func() compose.AnyGraph { return mkSub(true, fM) }), opts...), nil
 		default:
-			return f.g.AddGraphNode(c.Key, mkSub(false, fM), opts...), nil
+			return f.g.AddGraphNode(c.Key, pooled(&f.feBase, "sub", func() compose.AnyGraph { return mkSub(false, fM) }), opts...), nil
 		}
 	case "addedge":
 		return f.g.AddEdge(c.From, c.To), nil
 	case "addbranch":
-		return f.g.AddBranch(c.From, mkBranch(c.Ends, sizeM)), nil
+		return f.g.AddBranch(c.From, pooled(&f.feBase, "branch", func() *compose.GraphBranch { return mkBranch(c.Ends, sizeM) })), nil
 	case "compile":
-		r, err := f.g.Compile(ctx, compileOpts(c)...)
+		r, err := f.g.Compile(ctx, pooled(&f.feBase, "copts", func() []compose.GraphCompileOption { return compileOpts(c) })...)
 		if err != nil {
 			return err, nil
 		}
@@ -305,36 +338,56 @@ func (f *graphFE) apply(c *Call) (error, *invoker) {
 }
 
 // ---- Chain
-type chainFE struct{ c *compose.Chain[M, M] }
+type chainFE struct {
+	feBase
+	c *compose.Chain[M, M]
+}
 
 func newChainFE(state bool) *chainFE {
 	if state {
-		return &chainFE{compose.NewChain[M, M](newStateOpt())}
+		return &chainFE{c: compose.NewChain[M, M](newStateOpt())}
 	}
-	return &chainFE{compose.NewChain[M, M]()}
+	return &chainFE{c: compose.NewChain[M, M]()}
 }
 
 func (f *chainFE) apply(c *Call) (error, *invoker) {
 	ctx := context.Background()
 	switch c.Op {
 	case "append":
-		opts := nodeOpts[M](c.NeedState, c.NodeKey, c.NodeKey != "")
+		opts := pooled(&f.feBase, "opts", func() []compose.GraphAddNodeOpt { return nodeOpts[M](c.NeedState, c.NodeKey, c.NodeKey != "") })
 		name := c.NodeKey
 		if name == "" {
 			name = "n"
 		}
 		switch c.Kind {
 		case "lambda":
-			f.c.AppendLambda(mkLam(name, fM), opts...)
+			f.c.AppendLambda(pooled(&f.feBase, "lam", func() *compose.Lambda { return mkLam(name, fM) }), opts...)
 		case "pass":
 			f.c.AppendPassthrough(opts...)
 		case "subok":
-			f.c.AppendGraph(mkSub(true, fM), opts...)
+			f.c.AppendGraph(pooled(&f.feBase, "sub", func() compose.AnyGraph { return mkSub(true, fM) }), opts...)
 		default:
-			f.c.AppendGraph(mkSub(false, fM), opts...)
+			f.c.AppendGraph(pooled(&f.feBase, "sub", func() compose.AnyGraph { return mkSub(false, fM) }), opts...)
 		}
 		return nil, nil
 	case "parallel":
+		f.c.AppendParallel(pooled(&f.feBase, "parallel", func() *compose.Parallel { return mkParallel(c) }))
+		return nil, nil
+	case "branch":
+		f.c.AppendBranch(pooled(&f.feBase, "chainbranch", func() *compose.ChainBranch { return mkChainBranch(c) }))
+		return nil, nil
+	case "compile":
+		r, err := f.c.Compile(ctx, pooled(&f.feBase, "copts", func() []compose.GraphCompileOption { return compileOpts(c) })...)
+		if err != nil {
+			return err, nil
+		}
+		return nil, invM(r)
+	}
+	panic("harness: bad chain op " + c.Op)
+}
+
+func mkParallel(c *Call) *compose.Parallel {
+	{
 		p := compose.NewParallel()
 		for _, it := range c.Items {
 			opts := nodeOpts[M](false, it.NodeKey, it.NodeKey != "")
@@ -349,9 +402,12 @@ func (f *chainFE) apply(c *Call) (error, *invoker) {
 				p.AddGraph(it.Key, mkSub(false, fM), opts...)
 			}
 		}
-		f.c.AppendParallel(p)
-		return nil, nil
-	case "branch":
+		return p
+	}
+}
+
+func mkChainBranch(c *Call) *compose.ChainBranch {
+	{
 		keys := make([]string, 0, len(c.Items))
 		for _, it := range c.Items {
 			keys = append(keys, it.Key)
@@ -376,33 +432,26 @@ func (f *chainFE) apply(c *Call) (error, *invoker) {
 				cb.AddGraph(it.Key, mkSub(false, fM), opts...)
 			}
 		}
-		f.c.AppendBranch(cb)
-		return nil, nil
-	case "compile":
-		r, err := f.c.Compile(ctx, compileOpts(c)...)
-		if err != nil {
-			return err, nil
-		}
-		return nil, invM(r)
+		return cb
 	}
-	panic("harness: bad chain op " + c.Op)
 }
 
 // ---- Workflow
 type wfFE struct {
+	feBase
 	w       *compose.Workflow[WS, WS]
 	handles map[string]*compose.WorkflowNode
 }
 
 func newWfFE(state bool) *wfFE {
 	if state {
-		return &wfFE{compose.NewWorkflow[WS, WS](newStateOpt()), map[string]*compose.WorkflowNode{}}
+		return &wfFE{w: compose.NewWorkflow[WS, WS](newStateOpt()), handles: map[string]*compose.WorkflowNode{}}
 	}
-	return &wfFE{compose.NewWorkflow[WS, WS](), map[string]*compose.WorkflowNode{}}
+	return &wfFE{w: compose.NewWorkflow[WS, WS](), handles: map[string]*compose.WorkflowNode{}}
 }
 
 func mappings(fields []string) []*compose.FieldMapping {
-	var ms []*compose.FieldMapping
+	ms := make([]*compose.FieldMapping, 0, len(fields)+2) // spare capacity, see compileOpts
 	for _, f := range fields {
 		ms = append(ms, compose.ToField(f))
 	}
@@ -413,17 +462,17 @@ func (f *wfFE) apply(c *Call) (error, *invoker) {
 	ctx := context.Background()
 	switch c.Op {
 	case "addnode":
-		opts := nodeOpts[WS](c.NeedState, "", false)
+		opts := pooled(&f.feBase, "opts", func() []compose.GraphAddNodeOpt { return nodeOpts[WS](c.NeedState, "", false) })
 		var h *compose.WorkflowNode
 		switch c.Kind {
 		case "lambda":
-			h = f.w.AddLambdaNode(c.Key, mkLam(c.Key, fWS), opts...)
+			h = f.w.AddLambdaNode(c.Key, pooled(&f.feBase, "lam", func() *compose.Lambda { return mkLam(c.Key, fWS) }), opts...)
 		case "pass":
 			h = f.w.AddPassthroughNode(c.Key, opts...)
 		case "subok":
-			h = f.w.AddGraphNode(c.Key, mkSub(true, fWS), opts...)
+			h = f.w.AddGraphNode(c.Key, pooled(&f.feBase, "sub", func() compose.AnyGraph { return mkSub(true, fWS) }), opts...)
 		default:
-			h = f.w.AddGraphNode(c.Key, mkSub(false, fWS), opts...)
+			h = f.w.AddGraphNode(c.Key, pooled(&f.feBase, "sub", func() compose.AnyGraph { return mkSub(false, fWS) }), opts...)
 		}
 		f.handles[c.Key] = h
 		return nil, nil
@@ -441,9 +490,9 @@ func (f *wfFE) apply(c *Call) (error, *invoker) {
 		case "dep":
 			h.AddDependency(c.From)
 		case "nodirect":
-			h.AddInputWithOptions(c.From, mappings(c.Fields), compose.WithNoDirectDependency())
+			h.AddInputWithOptions(c.From, pooled(&f.feBase, "maps", func() []*compose.FieldMapping { return mappings(c.Fields) }), compose.WithNoDirectDependency())
 		default:
-			h.AddInput(c.From, mappings(c.Fields)...)
+			h.AddInput(c.From, pooled(&f.feBase, "maps", func() []*compose.FieldMapping { return mappings(c.Fields) })...)
 		}
 		return nil, nil
 	case "setstatic":
@@ -459,13 +508,13 @@ func (f *wfFE) apply(c *Call) (error, *invoker) {
 		h.SetStaticValue(compose.FieldPath{c.Fields[0]}, "static:"+c.Fields[0])
 		return nil, nil
 	case "addbranch":
-		f.w.AddBranch(c.From, mkBranch(c.Ends, sizeWS))
+		f.w.AddBranch(c.From, pooled(&f.feBase, "branch", func() *compose.GraphBranch { return mkBranch(c.Ends, sizeWS) }))
 		return nil, nil
 	case "addend":
-		f.w.AddEnd(c.From, mappings(c.Fields)...)
+		f.w.AddEnd(c.From, pooled(&f.feBase, "maps", func() []*compose.FieldMapping { return mappings(c.Fields) })...)
 		return nil, nil
 	case "compile":
-		r, err := f.w.Compile(ctx, compileOpts(c)...)
+		r, err := f.w.Compile(ctx, pooled(&f.feBase, "copts", func() []compose.GraphCompileOption { return compileOpts(c) })...)
 		if err != nil {
 			return err, nil
 		}
@@ -551,6 +600,7 @@ type compiled struct {
 }
 
 type execResult struct {
+	runs     []*compiled // the runnables obtained (only when snapshots are taken)
 	obs      []CallObs
 	intact   bool   // every snapshot still holds after all later calls
 	recomp   string // "" or a description: a later Compile with the same options gives a different runnable
@@ -562,8 +612,9 @@ const nInputs = 3
 
 func optKey(c *Call) string { return fmt.Sprintf("%s/%d", c.Trigger, c.MaxSteps) }
 
-func execute(c *Case, snapshot bool) execResult {
+func execute(c *Case, snapshot bool, values *pool) execResult {
 	fe := newFE(c)
+	fe.base().pool = values
 	res := execResult{intact: true}
 	prevState := hashState(fe.snapshot())
 	var runs []*compiled
@@ -573,6 +624,7 @@ func execute(c *Case, snapshot bool) execResult {
 		var inv *invoker
 		before := fe.pendingInputs()
 		sbefore := fe.pendingStatics()
+		fe.base().at = i
 		p := lib.Recover(func() { err, inv = fe.apply(call) })
 		var o CallObs
 		switch {
@@ -636,6 +688,18 @@ func execute(c *Case, snapshot bool) execResult {
 			runs = append(runs, cr)
 		}
 	}
+	res.runs = runs
+	res.intact, res.affected, res.nStruct = recheck(runs, "the later calls")
+	return res
+}
+
+// recheck: every runnable still gives its snapshotted outputs and still keeps what it kept right after its Compile
+func recheck(runs []*compiled, after string) (intact bool, affected string, nStruct int) {
+	res := struct {
+		intact   bool
+		affected string
+		nStruct  int
+	}{intact: true}
 	for _, cr := range runs {
 		for k := 0; k < nInputs; k++ {
 			if cr.snap[k] == "" {
@@ -648,8 +712,8 @@ func execute(c *Case, snapshot bool) execResult {
 			if now != cr.snap[k] {
 				res.intact = false
 				if res.affected == "" {
-					res.affected = fmt.Sprintf("runnable of Compile #%d on input %d: before %s, after the later calls %s",
-						cr.at, k, cr.snap[k], now)
+					res.affected = fmt.Sprintf("runnable of Compile #%d on input %d: before %s, after %s %s",
+						cr.at, k, cr.snap[k], after, now)
 				}
 			}
 		}
@@ -667,11 +731,11 @@ func execute(c *Case, snapshot bool) execResult {
 		if d := firstDiff(cr.shot, now); d != "" {
 			res.intact = false
 			if res.affected == "" {
-				res.affected = fmt.Sprintf("runnable of Compile #%d: what it keeps changed after the later calls: %s", cr.at, d)
+				res.affected = fmt.Sprintf("runnable of Compile #%d: what it keeps changed after %s: %s", cr.at, after, d)
 			}
 		}
 	}
-	return res
+	return res.intact, res.affected, res.nStruct
 }
 
 // runnerLines renders the runner behind a runnable (compose.VerifC09Project): node keys, control and
